@@ -769,7 +769,7 @@ def run(ctx):
         for cfg in ({"limit": 1, "lph": 0, "force_close": 0}, {"limit": 2, "lph": 1, "force_close": 0},
                     {"limit": 0, "lph": 1, "force_close": 0}):
             batch = []
-            for h in enumerate_histories(5):
+            for h in enumerate_histories(4):
                 if len(h) >= 2:
                     batch.append((cfg, 2, h, []))
                 if len(batch) >= 2000:
